@@ -27,10 +27,13 @@ THR = {
     "mL": ["250", "500", "750", "1000", "1500"],
     "CV": ["0.125", "0.25", "0.5", "0.75", "1"],
 }
-WAITS_ANY = ["0.0625", "0.125", "0.25", "0.375", "0.5", "0.75", "1", "1.25", "1.5"]
+# entries without a unit are seconds; minutes / hours (also values below 0.1 in those units) exercise the unit
+# conversion of the duration before the one-tick correction
+WAITS_ANY = ["0.0625", "0.125", "0.25", "0.375", "0.5", "0.75", "1", "1.25", "1.5", "0.02min", "0.001h"]
 # durations at 0.1 s ticks: on the tick grid (the common case; the comparison is decided by float rounding,
 # which the harness reproduces exactly, see HarnessTenths) and off it
-WAITS_TENTHS = ["0.0625", "0.1", "0.2", "0.3", "0.5", "0.7", "1", "1.2", "1.5", "0.25", "0.375", "0.75", "1.25"]
+WAITS_TENTHS = ["0.0625", "0.1", "0.2", "0.3", "0.5", "0.7", "1", "1.2", "1.5", "0.25", "0.375", "0.75", "1.25",
+                "0.02min", "0.025min", "0.001h", "0.0005h"]
 
 
 # ----------------------------------------------------------------------------------------
@@ -65,7 +68,9 @@ class GenC03(Gen):
         if text.startswith("Base: "):
             self.base = text.split(": ")[1]
         if text.startswith("Wait: "):
-            text = f"Wait: {r.choice(self.waits)}s"
+            w = r.choice(self.waits)
+            text = f"Wait: {w}" + ("" if w[-1].isalpha() else "s")
+            self.count("wait_in_" + ("s" if not w[-1].isalpha() else "h" if w.endswith("h") else "min"))
         prefix = ""
         if thr and "thr" in self.features and r.random() < self.p_thr:
             prefix = r.choice(THR[self.base]) + " "
@@ -286,11 +291,11 @@ DURATION = re.compile(r"^\s*([0-9]*\.?[0-9]+)\s*(s|min|h)\s*$")
 
 def gen_rerun_method(rng: random.Random) -> tuple[str, dict[str, int]]:
     """A Wait inside a Macro called 2-3 times, or inside the body of an Alarm that fires again and again."""
-    d = rng.choice(["0.25", "0.375", "0.5", "0.75", "1", "1.25"])
+    d = rng.choice(["0.25s", "0.375s", "0.5s", "0.75s", "1s", "1.25s", "0.02min", "0.0005h"])
     thr = (rng.choice(["0.25", "0.5"]) + " ") if rng.random() < 0.25 else ""
     pre = ["Mark: a"] if rng.random() < 0.6 else []
     post = rng.choice([["Mark: b"], ["Mark: b", "Mark: c"], ["CmdA", "Mark: b"]])
-    body = pre + [f"{thr}Wait: {d}s"] + post
+    body = pre + [f"{thr}Wait: {d}"] + post
     if rng.random() < 0.2:
         body += [f"Wait: {rng.choice(['0.25', '0.5'])}s", "Mark: z"]
     lines = ["Base: s"]
@@ -335,7 +340,8 @@ def gen_oracle_case(rng: random.Random, default_interval: bool) -> dict:
     elif volume:
         pcode, stats = gen_volume_method(rng)
     else:
-        pcode, stats = gen_method(rng, features, max_lines=rng.choice([6, 9, 12]), max_depth=2, p_thr=0.45)
+        pcode, stats = gen_method(rng, features, max_lines=rng.choice([6, 9, 12]), max_depth=2, p_thr=0.45,
+                                  waits=WAITS_ANY + ["0.025min", "0.05min", "0.0005h", "0.002h"])
     n_ticks = rng.choice([60, 90, 120]) if not rerun else rng.choice([90, 120])
     plan: list[list] = []
     paused_until = -1
